@@ -337,10 +337,20 @@ func hostileSession(r *rand.Rand) (mSession, string) {
 	for i, n := 0, r.Intn(3); i < n; i++ {
 		a := mAttribute{Friendly: h(), Name: h(), Format: pick(r, []string{"", "urn:oasis:names:tc:SAML:2.0:attrname-format:basic", h()})}
 		for j, m := 0, r.Intn(3); j < m; j++ {
-			a.Values = append(a.Values, mAttrValue{Type: pick(r, []string{"xs:string", "", "xs:anyURI", h()}), Value: hostileString(r, cls)})
+			// every content form of an AttributeValue: text only, NameID child only, both, neither
+			v := mAttrValue{Type: pick(r, []string{"xs:string", "", "xs:anyURI", h()})}
+			shape := r.Intn(6)
+			if shape != 1 && shape != 3 {
+				v.Value = hostileString(r, cls)
+			}
+			if shape == 1 || shape == 2 {
+				v.NameID = &mNameID{Format: pick(r, []string{"", "urn:oasis:names:tc:SAML:2.0:nameid-format:persistent"}), NameQualifier: h(), SPNameQualifier: h(), Value: hostileString(r, cls)}
+			}
+			a.Values = append(a.Values, v)
 		}
 		s.Custom = append(s.Custom, a)
 	}
+	s.EmptyNotNil = r.Intn(3) == 0 // nil and empty non-nil slices are the same session
 	return s, cls
 }
 
@@ -407,6 +417,19 @@ func c07Pipeline(c *Ctx) {
 		case i >= 40 && i < 54: // several outstanding request ids, plaintext and encrypted
 			shapes := []string{"first-of-3", "middle-of-3", "last-of-3", "first-of-2", "last-of-2", "twice", "first-then-prefix"}
 			setup = c07Setup{entityIDSet: i%2 == 0, spKey: "rsa_b", cert: i >= 47, binding: "post", idsShape: shapes[(i-40)%7], xmlEntry: i%3 == 0}
+		case i >= 54 && i < 58: // empty, non-nil Groups / CustomAttributes / Values: no value-less attribute may appear
+			setup = c07Setup{entityIDSet: i%2 == 0, spKey: "rsa_b", cert: i >= 56, binding: "post", idsShape: "single"}
+			sess = mSession{Create: now, NameID: "alice", UserName: "alice", Email: "a@example.com", EmptyNotNil: true}
+			if i%2 == 1 {
+				sess.Custom = []mAttribute{{Friendly: "f", Name: "urn:custom:no-values", Format: "urn:x"}}
+			}
+			cls = "empty-not-nil"
+		case i >= 58 && i < 66: // AttributeValue content forms
+			setup = c07Setup{entityIDSet: i%2 == 0, spKey: "rsa_c", cert: i >= 62, binding: "redirect", idsShape: "single"}
+			nid := &mNameID{Format: "urn:oasis:names:tc:SAML:2.0:nameid-format:persistent", NameQualifier: "https://idp.example.com/", SPNameQualifier: "spn", Value: "opaque-1"}
+			vals := [][]mAttrValue{{{Type: "xs:string", Value: "text"}}, {{Type: "", NameID: nid}}, {{Type: "xs:string", Value: "primary:", NameID: nid}}, {{Type: "xs:string"}}}[i%4]
+			sess = mSession{Create: now, NameID: "alice", Custom: []mAttribute{{Friendly: "tid", Name: "urn:oid:1.3.6.1.4.1.5923.1.1.1.10", Format: "urn:oasis:names:tc:SAML:2.0:attrname-format:uri", Values: vals}}}
+			cls = "attribute-value-forms"
 		case i >= 24 && i < 30: // "]]>" in each string that travels as an XML attribute (known finding K4)
 			sess = mSession{Create: now, NameID: "alice", UserName: "u"}
 			at := mAttribute{Friendly: "f", Name: "n", Format: "urn:x", Values: []mAttrValue{{Type: "xs:string", Value: "v]]>"}}}
@@ -514,6 +537,10 @@ func cdataEndInAttribute(s mSession) bool {
 		for _, v := range a.Values {
 			all = append(all, v.Type, v.Value)
 			attrPos = append(attrPos, v.Type)
+			if v.NameID != nil {
+				all = append(all, v.NameID.Format, v.NameID.NameQualifier, v.NameID.SPNameQualifier, v.NameID.Value)
+				attrPos = append(attrPos, v.NameID.Format, v.NameID.NameQualifier, v.NameID.SPNameQualifier)
+			}
 		}
 	}
 	for _, x := range all {
